@@ -1,6 +1,7 @@
 import Gallia.Model.Randomize
 import Gallia.Proofs.Lemmas.Randomize
 import Gallia.Proofs.Lemmas.RandomizeDict
+import Gallia.Proofs.Lemmas.RandomizeSpec
 import Gallia.Gen.C16Tables
 /-
   C16 — a random virtual ECU is fully determined by its seed and arguments; its model is well-formed.
@@ -145,6 +146,39 @@ theorem randomizeCore_wellFormed (p : Params) (hp : ParamsWF p) (hd : 0x10 ∈ p
     reachable := reachable_from_default isoTables_wf hd hp
     returns := returns_to_default isoTables_wf hd hp
     dsc_sessions := fun a b ⟨sm, l, hm, hl, hb⟩ => dsc_subfns_are_sessions isoTables_wf hp a sm l b hm hl hb }
+
+/-! ### the executable report the harness evaluates on the implementation's own model -/
+
+/-- soundness of the executable check: when `wfReport` (run by the correspondence harness on `server.services` of the
+    real `RandomUDSServer`) shows all six flags, that model is well-formed in the sense of the theorems above.
+    `UniqueKeys` holds of anything read from a Python dict of dicts. -/
+theorem wfReport_sound (p : Params) (m : Model) (hu : UniqueKeys m)
+    (h : wfReport isoTables p m = ⟨true, true, true, true, true, true⟩) : WellFormed p m := by
+  have h1 := congrArg WfReport.mandatorySessions h
+  have h2 := congrArg WfReport.mandatoryServices h
+  have h3 := congrArg WfReport.defaultPresent h
+  have h4 := congrArg WfReport.reachable h
+  have h5 := congrArg WfReport.returns h
+  have h6 := congrArg WfReport.dscAreSessions h
+  simp only [wfReport, List.all_eq_true, Bool.and_eq_true] at h1 h2 h3 h4 h5 h6
+  have hsess : ∀ {s sm}, (s, sm) ∈ m → s ∈ m.map (·.1) := fun hm => List.mem_map.2 ⟨_, hm, rfl⟩
+  refine ⟨offeredB_sound h3, fun s hs => offeredB_sound (h1 s hs), ?_, ?_, ?_, ?_⟩
+  · intro s sm hm k hk
+    have := h2 (s, sm) hm k hk
+    cases hv : lookupSvc sm k with
+    | none => simp [hv] at this
+    | some v => exact ⟨v, lookupSvc_some hv⟩
+  · rintro s ⟨sm, hm⟩
+    have := h4.2 s (hsess hm)
+    have hseed : ∀ y ∈ [defaultSession], Reach (DscEdge isoTables m) defaultSession y := by
+      intro y hy; simp at hy; subst hy; exact .refl _
+    exact reachFrom_sound isoTables m defaultSession m.length [defaultSession] hseed s (by simpa using this)
+  · rintro s ⟨sm, hm⟩
+    have := h5 s (hsess hm)
+    exact dscOf_edge (by simpa using this)
+  · rintro a b ⟨sm, l, hm, hl, hb⟩
+    have := h6 a (hsess hm) b (by rw [dscOf_of_edge hu hm hl]; exact hb)
+    exact offeredB_sound this
 
 /-! ### non-vacuity -/
 
